@@ -133,7 +133,7 @@ pub fn model(r: &mut Rng, cfg: &LpCfg) -> (LinearModel, Vec<String>) {
         let name = match cfg.naming {
             0 => String::new(),
             1 => format!("r{}", k),
-            _ => match r.below(8) { 0 | 1 => String::new(), 2 => "dup".to_string(), 3 => format!("__aux{}", k), _ => format!("r{}", k) },
+            _ => match r.below(9) { 0 | 1 => String::new(), 2 => "dup".to_string(), 3 => format!("__aux{}", k), 4 => format!("need__{}", k + 2), _ => format!("r{}", k) },
         };
         m.add_named_constraint(cs, c, rhs, &name);
     }
@@ -178,6 +178,8 @@ pub struct Variants {
     pub clarabel_empty_handled: bool,
     /// fixes/C05-clarabel-dual-infeasible.diff
     pub clarabel_primal_check: bool,
+    /// fixes/C05-microlp-unused-free-column.diff
+    pub microlp_pins_unused_free: bool,
 }
 
 pub fn primal_dual_infeasible_probe() -> LinearModel {
@@ -206,7 +208,15 @@ pub fn detect_variants() -> Variants {
     let clarabel_empty_handled = !matches!(solve(SolverKind::Clarabel, &LinearModel::new(), &Opts::default(), t), Outcome::Panic(_));
     let clarabel_primal_check = matches!(solve(SolverKind::Clarabel, &primal_dual_infeasible_probe(), &Opts::default(), t),
         Outcome::Err { variant, .. } if variant == "Infeasible");
-    Variants { milp_reads_status, clarabel_empty_handled, clarabel_primal_check }
+    // `min k; 2k >= 3; k integer 0..3; u Real free and unused`: microlp fails inside branch and bound unless u is pinned
+    let mut u = LinearModel::new();
+    u.add_variable("k", VariableType::IntegerRange(0, 3));
+    u.add_variable("u", VariableType::Real(f64::NEG_INFINITY, f64::INFINITY));
+    u.add_constraint(vec![2.0, 0.0], Comparison::GreaterOrEqual, 3.0);
+    u.set_objective(vec![1.0, 0.0], OptimizationType::Min);
+    let microlp_pins_unused_free = matches!(solve(SolverKind::Milp, &u, &Opts::default(), t), Outcome::Solution(_));
+    crate::child::MIRROR_PINS_UNUSED_FREE.store(microlp_pins_unused_free, std::sync::atomic::Ordering::Relaxed);
+    Variants { milp_reads_status, clarabel_empty_handled, clarabel_primal_check, microlp_pins_unused_free }
 }
 
 impl Variants {
@@ -215,6 +225,7 @@ impl Variants {
             format!("variant-milp-{}", if self.milp_reads_status { "reads-status" } else { "ignores-status" }),
             format!("variant-clarabel-empty-model-{}", if self.clarabel_empty_handled { "handled" } else { "unhandled" }),
             format!("variant-clarabel-dual-infeasible-{}", if self.clarabel_primal_check { "primal-check" } else { "unchecked" }),
+            format!("variant-microlp-unused-free-{}", if self.microlp_pins_unused_free { "pinned" } else { "passed-through" }),
         ]
     }
 }
